@@ -7,4 +7,10 @@ func init() {
 		explanation: "Decides the write-ordering, acknowledgement and error-discipline clauses that every crash argument for immudb's commit protocol rests on (value/tx log flush+fsync before commit-log append+fsync before ack; hash-tree and index commit entries after their payload is flushed/fsynced; recovery guards; no dropped storage error). It does NOT decide which bytes survive a crash or that recovery as a whole is correct.",
 		assumptions: []string{"appendable implementations honour Flush/Sync", "frozen rule tables name the durability points correctly"},
 	})
+	register("C02", &propDef{
+		patterns: []string{"./embedded/store", "./pkg/database"},
+		run:      c02,
+		explanation: "Decides the structural clauses that keep committed history immutable: single writer sites and write positions of the tx log and commit log, no DiscardUpto on history logs, lockset of the commit-state fields, the discard guard, the chain check of TxReader, and that one Alh value feeds the tx record, the hash tree, the commit buffer and the in-memory frontier. It does NOT decide id density or byte equality over interleavings.",
+		assumptions: []string{"all mutation of ImmuStore commit state goes through field stores visible to go/ssa (no unsafe, no reflection)"},
+	})
 }
